@@ -7,7 +7,12 @@
 //      z = (ring - (rings-1)/2) * ring spacing; blocks/generic: the scanner's detector map), averaged over the
 //      contributing detector pairs for compressed bins;
 //  (3) antisymmetry / strict monotonicity in each index, uniform tangential sampling of arc-corrected data, TOF distances;
-//  (4) ArcCorrection rows against a float64 overlap-interpolation reference (uniform -> uniform, integral over s).
+//  (4) ArcCorrection rows against a float64 overlap-interpolation reference (uniform -> uniform, integral over s);
+//  (5) the Cartesian-coordinate functions of the detector-based classes (find_cartesian_coordinates_of_detection,
+//      find_bin_given_cartesian_coordinates_of_detection, find_{cartesian,scanner}_coordinates_given_{scanner,cartesian}_coordinates),
+//      inside their documented domain (no axial compression, no view mashing; z = 0 in the FIRST ring, not the scanner centre):
+//      the two points of a bin lie on the line the bin reports (get_s/get_phi/get_m/get_tantheta and get_LOR), are the physical
+//      positions of the bin's two detectors, convert back to the bin, and scanner <-> Cartesian coordinates invert each other.
 //
 // Conventions used by the reference (ProjDataInfo.h, LORCoordinates.h/.inl, ProjDataInfoCylindrical::get_LOR):
 //  a detector at angle psi sits at x = R sin(psi), y = -R cos(psi);  a LOR is  X = s cos(phi) + a sin(phi),
@@ -126,6 +131,7 @@ struct Cfg
   const ProjDataInfoCylindricalNoArcCorr* noarc = nullptr;
   const ProjDataInfoCylindricalArcCorr* arc = nullptr;
   const ProjDataInfoGenericNoArcCorr* gen = nullptr;
+  const ProjDataInfoBlocksOnCylindricalNoArcCorr* blk = nullptr;
   DetModel dm;
   int N, R, nviews, mash;
   double Reff, spacing, tilt, scale_r, scale_z;
@@ -551,6 +557,257 @@ geometry(Ctx& ctx, const Cfg& c, const Bin& b, GeoStats& st, std::vector<Detecti
     ++st.tanth_pairs;
   else
     ++st.tanth_segavg;
+  return true;
+}
+
+// ------------------------------------------------------------------ (5) Cartesian coordinates of detection
+static int coprime_stride(long need, int a, int b, int c);
+// Documented for these ("obsolete") functions: the axial coordinate is zero in the FIRST ring, while get_m()/get_LOR() have it
+// zero in the centre of the scanner; find_cartesian_coordinates_of_detection goes through get_det_pos_pair_for_bin, i.e. only
+// for span 1 and no view mashing.  The order of the two points is not part of the statement (a line): compared as unordered pair.
+struct CartStats
+{
+  long bins = 0, oblique = 0, in_detector_order = 0, swapped_order = 0, swapped_order_tof_nonneg = 0, vs_get_lor = 0, find_exact = 0, find_neigh = 0, find_wrap = 0;
+};
+
+static double
+z_of_first_ring(const Cfg& c) // in the scanner-centred frame of get_m()/get_LOR(), from the independent detector model
+{
+  return c.dm.pos(0, 0).z;
+}
+// error of one reported point: cylindrical = R sin/cos of a float32 angle of magnitude <= 2 pi + |tilt| that went through ~4 float
+// operations, plus the multiplication; blocks/generic = the float32 detector map itself
+static double
+cart_point_band_xy(const Cfg& c)
+{
+  return c.gen ? 4 * EPS32 * c.scale_r : EPS32 * c.scale_r * (4 * (2 * PI + std::fabs(c.tilt)) + 8);
+}
+static bool
+cart_point_is(const Cfg& c, const CartesianCoordinate3D<float>& p, const P3& q)
+{
+  const double bxy = cart_point_band_xy(c), bz = 16 * EPS32 * c.scale_z;
+  return std::fabs(p.x() - q.x) <= bxy && std::fabs(p.y() - q.y) <= bxy && std::fabs(p.z() + z_of_first_ring(c) - q.z) <= bz;
+}
+static std::string
+p3s(const CartesianCoordinate3D<float>& p)
+{
+  return vf::fmt("(x%.7g,y%.7g,z%.7g)", p.x(), p.y(), p.z());
+}
+
+// the line through two points (g, float64, scanner-centred z) against a reported (s, phi, m, tan theta); either orientation of the
+// line is accepted ((s,phi,theta) ~ (-s,phi+pi,-theta)); phi within half a view step where interleaving plays a role
+static bool
+line_agrees(Ctx& ctx, const Cfg& c, const Bin& b, const char* fn, const char* with, Geo g, double s, double phi, double m, double tt,
+            const std::string& pts)
+{
+  double dphi = wrap_pi(phi - g.phi);
+  if (std::fabs(dphi) > PI / 2)
+    {
+      dphi = wrap_pi(dphi - PI);
+      g.s = -g.s;
+      g.tantheta = -g.tantheta;
+    }
+  const bool cylclass = c.klass == CYL_NOARC;
+  const double ulps = cylclass ? 16 : 96;
+  const double band_s = ulps * EPS32 * c.scale_r + cart_point_band_xy(c);
+  const double band_m = ulps * EPS32 * c.scale_z + band_s * std::fabs(g.tantheta);
+  const double band_phi = ulps * EPS32 * (PI + std::fabs(c.tilt)) + band_s / (g.L / 2);
+  const double band_tt = ulps * EPS32 * std::fabs(g.tantheta) + ulps * EPS32 * c.scale_z / g.L + 2 * band_s * std::fabs(g.tantheta) / g.L + 1e-12;
+  const bool phi_exact = c.klass != CYL_NOARC || (b.tangential_pos_num() % 2) == 0;
+  const double phi_allow = phi_exact ? band_phi : PI / c.nviews / 2 + band_phi;
+  const char* q = nullptr;
+  double got = 0, ref = 0, band = 0;
+  if (!(std::fabs(g.s - s) <= band_s))
+    q = "s", got = g.s, ref = s, band = band_s;
+  else if (!(std::fabs(g.m - m) <= band_m))
+    q = "m", got = g.m, ref = m, band = band_m;
+  else if (!(std::fabs(dphi) <= phi_allow))
+    q = "phi", got = phi - dphi, ref = phi, band = phi_allow;
+  else if (!(std::fabs(g.tantheta - tt) <= band_tt))
+    q = "tantheta", got = g.tantheta, ref = tt, band = band_tt;
+  if (!q)
+    return true;
+  ctx.violation(std::string(kname(c.klass)) + ":" + fn + "-" + q + "-of-the-line-through-the-points-differs-from-" + with,
+                bins(b) + ": points " + pts + vf::fmt(" (z from the first ring) give %s = %.9g, %s has %.9g (diff %.3g, band %.3g)", q, got, with, ref, got - ref, band));
+  return false;
+}
+
+static bool
+cartesian_of_bin(Ctx& ctx, const Cfg& c, const Bin& b, CartStats& st)
+{
+  if (c.klass == CYL_ARC)
+    return true;
+  const int seg = b.segment_num();
+  if (c.mash != 1 || c.cyl->get_min_ring_difference(seg) != c.cyl->get_max_ring_difference(seg))
+    return true; // documented: only span 1 and no view mashing
+  const ProjDataInfo& p = *c.pdi;
+  const std::string K = kname(c.klass);
+  CartesianCoordinate3D<float> c1, c2;
+  if (c.noarc)
+    c.noarc->find_cartesian_coordinates_of_detection(c1, c2, b);
+  else
+    c.gen->find_cartesian_coordinates_of_detection(c1, c2, b);
+  const std::string pts = p3s(c1) + " " + p3s(c2);
+  ++st.bins;
+  const double z0 = z_of_first_ring(c);
+  const P3 q1{ c1.x(), c1.y(), c1.z() + z0 }, q2{ c2.x(), c2.y(), c2.z() + z0 };
+  if (!(std::hypot(q1.x - q2.x, q1.y - q2.y) > 1e-3 * c.scale_r))
+    {
+      ctx.violation(K + ":find_cartesian_coordinates_of_detection-returns-coincident-points", bins(b) + ": " + pts);
+      return false;
+    }
+  const Geo g = geo_from_points(q1, q2);
+  // (i) on the line the bin reports
+  if (!line_agrees(ctx, c, b, "find_cartesian_coordinates_of_detection", "get_s-get_phi-get_m-get_tantheta", g, p.get_s(b), p.get_phi(b), p.get_m(b),
+                   p.get_tantheta(b), pts))
+    return false;
+  if (g.tantheta != 0)
+    ++st.oblique;
+  {
+    LORInAxialAndNoArcCorrSinogramCoordinates<float> lor;
+    p.get_LOR(lor, b);
+    LORAs2Points<float> l2;
+    if (lor.get_intersections_with_cylinder(l2, lor.radius()) == Succeeded::yes)
+      {
+        const Geo gl = geo_from_points(P3{ l2.p1().x(), l2.p1().y(), l2.p1().z() }, P3{ l2.p2().x(), l2.p2().y(), l2.p2().z() });
+        if (!line_agrees(ctx, c, b, "find_cartesian_coordinates_of_detection", "get_LOR", g, gl.s, gl.phi, gl.m, gl.tantheta, pts))
+          return false;
+        ++st.vs_get_lor;
+      }
+  }
+  // (ii) the physical positions of the bin's two detectors
+  {
+    Bin b0 = b;
+    b0.timing_pos_num() = 0;
+    DetectionPositionPair<> dp;
+    if (c.noarc)
+      c.noarc->get_det_pos_pair_for_bin(dp, b0);
+    else
+      c.gen->get_det_pos_pair_for_bin(dp, b0);
+    const int d1 = dp.pos1().tangential_coord(), r1 = dp.pos1().axial_coord(), d2 = dp.pos2().tangential_coord(), r2 = dp.pos2().axial_coord();
+    if (d1 < 0 || d1 >= c.N || d2 < 0 || d2 >= c.N || r1 < 0 || r1 >= c.R || r2 < 0 || r2 >= c.R)
+      return true; // reported by the geometry clause
+    const P3 m1 = c.dm.pos(d1, r1), m2 = c.dm.pos(d2, r2);
+    if (cart_point_is(c, c1, m1) && cart_point_is(c, c2, m2))
+      ++st.in_detector_order;
+    else if (cart_point_is(c, c1, m2) && cart_point_is(c, c2, m1))
+      {
+        ++st.swapped_order; // expected for negative TOF bins (get_det_pos_pair_for_bin swaps the detectors instead of negating the TOF index)
+        if (b.timing_pos_num() >= 0)
+          ++st.swapped_order_tof_nonneg;
+      }
+    else
+      {
+        ctx.violation(K + ":find_cartesian_coordinates_of_detection-differs-from-the-positions-of-the-bins-detectors",
+                      bins(b) + ": points " + pts
+                          + vf::fmt(" (z from the first ring, which is at %.7g); detectors (d%d,r%d) at (x%.7g,y%.7g,z%.7g), (d%d,r%d) at (x%.7g,y%.7g,z%.7g) "
+                                    "(z from the scanner centre); band xy %.3g",
+                                    z0, d1, r1, m1.x, m1.y, m1.z, d2, r2, m2.x, m2.y, m2.z, cart_point_band_xy(c)));
+        return false;
+      }
+  }
+  // (iii) back to the bin (these functions take no time difference: spatial indices only)
+  if (c.noarc || c.blk)
+    {
+      Bin nb(0, 0, 0, 0, 1.f);
+      if (c.noarc)
+        c.noarc->find_bin_given_cartesian_coordinates_of_detection(nb, c1, c2);
+      else
+        c.blk->find_bin_given_cartesian_coordinates_of_detection(nb, c1, c2);
+      Bin o = b;
+      o.timing_pos_num() = 0;
+      Bin n = nb;
+      n.timing_pos_num() = 0;
+      if (n.get_bin_value() < 0)
+        n.set_bin_value(-1.f);
+      else
+        n.set_bin_value(1.f); // only -1 is documented to mean "no bin"
+      switch (classify(c, o, n))
+        {
+        case RT_EXACT:
+          ++st.find_exact;
+          break;
+        case RT_NEIGHBOUR:
+          ++st.find_neigh;
+          break;
+        case RT_WRAP:
+          ++st.find_wrap;
+          break;
+        case RT_MISS:
+          ctx.violation(K + ":find_bin_given_cartesian_coordinates_of_detection-finds-no-bin-for-the-points-of-a-bin", bins(b) + ": points " + pts);
+          return false;
+        default:
+          ctx.violation(K + ":find_bin_given_cartesian_coordinates_of_detection-more-than-one-step-or-other-segment",
+                        bins(b) + ": points " + pts + " -> " + bins(nb));
+          return false;
+        }
+    }
+  return true;
+}
+
+// (iv) scanner coordinates <-> Cartesian coordinates for every (detector, ring), each paired with two partners at least two crystals away
+static bool
+scanner_coordinate_checks(Ctx& ctx, const Cfg& c)
+{
+  if (c.klass == CYL_ARC)
+    return true;
+  vf::Rng& rng = ctx.rng;
+  const std::string K = kname(c.klass);
+  const long ndet = static_cast<long>(c.N) * c.R;
+  const long step = ndet <= 20000 ? 1 : coprime_stride((ndet + 19999) / 20000, c.N, c.R, 1);
+  long n_pos = 0, n_inv = 0, n_inv_ordered = 0;
+  for (long i = ndet <= 20000 ? 0 : rng.range(0, step - 1); i < ndet; i += step)
+    {
+      const int d1 = static_cast<int>(i % c.N), r1 = static_cast<int>(i / c.N);
+      for (int partner = 0; partner < 2; ++partner)
+        {
+          const int o = partner == 0 ? 0 : static_cast<int>(rng.range(-(c.N / 2 - 2), c.N / 2 - 2));
+          const int d2 = ((d1 + c.N / 2 + o) % c.N + c.N) % c.N;
+          const int r2 = partner == 0 ? r1 : static_cast<int>(rng.range(0, c.R - 1));
+          const int tpos = c.noarc && c.pdi->is_tof_data() ? static_cast<int>(rng.range(-1, 1)) : 0;
+          CartesianCoordinate3D<float> c1, c2;
+          if (c.noarc)
+            c.noarc->find_cartesian_coordinates_given_scanner_coordinates(c1, c2, r1, r2, d1, d2, tpos);
+          else
+            c.gen->find_cartesian_coordinates_given_scanner_coordinates(c1, c2, r1, r2, d1, d2);
+          const std::string in = vf::fmt("(d%d,r%d)-(d%d,r%d) tof %d", d1, r1, d2, r2, tpos);
+          const P3 m1 = c.dm.pos(d1, r1), m2 = c.dm.pos(d2, r2);
+          if (!((cart_point_is(c, c1, m1) && cart_point_is(c, c2, m2)) || (cart_point_is(c, c1, m2) && cart_point_is(c, c2, m1))))
+            {
+              ctx.violation(K + ":find_cartesian_coordinates_given_scanner_coordinates-differs-from-the-detector-positions",
+                            in + ": points " + p3s(c1) + " " + p3s(c2)
+                                + vf::fmt(" (z from the first ring, which is at %.7g); detectors at (x%.7g,y%.7g,z%.7g), (x%.7g,y%.7g,z%.7g) (z from the "
+                                          "scanner centre); band xy %.3g",
+                                          z_of_first_ring(c), m1.x, m1.y, m1.z, m2.x, m2.y, m2.z, cart_point_band_xy(c)));
+              return false;
+            }
+          ++n_pos;
+          if (!c.noarc && !c.blk)
+            continue; // ProjDataInfoGenericNoArcCorr has no inverse
+          int e1 = -1, e2 = -1, q1 = -1, q2 = -1;
+          const Succeeded ok = c.noarc ? c.noarc->find_scanner_coordinates_given_cartesian_coordinates(e1, e2, q1, q2, c1, c2)
+                                       : c.blk->find_scanner_coordinates_given_cartesian_coordinates(e1, e2, q1, q2, c1, c2);
+          if (ok != Succeeded::yes)
+            {
+              ctx.violation(K + ":find_scanner_coordinates_given_cartesian_coordinates-fails-for-two-detector-positions",
+                            in + ": points " + p3s(c1) + " " + p3s(c2) + " from find_cartesian_coordinates_given_scanner_coordinates");
+              return false;
+            }
+          const bool ordered = e1 == d1 && q1 == r1 && e2 == d2 && q2 == r2, swapped = e1 == d2 && q1 == r2 && e2 == d1 && q2 == r1;
+          if (!ordered && !swapped)
+            {
+              ctx.violation(K + ":find_scanner_coordinates_given_cartesian_coordinates-does-not-invert-find_cartesian_coordinates_given_scanner_coordinates",
+                            in + ": points " + p3s(c1) + " " + p3s(c2) + vf::fmt(" -> (d%d,r%d)-(d%d,r%d)", e1, q1, e2, q2));
+              return false;
+            }
+          ++n_inv;
+          n_inv_ordered += ordered;
+        }
+    }
+  ctx.count("cart_scanner_coordinates_vs_detector_positions", n_pos);
+  ctx.count("cart_scanner_coordinate_inversions", n_inv);
+  ctx.count("cart_scanner_coordinate_inversions_same_order", n_inv_ordered);
+  ctx.count(std::string("cart_scanner_coordinate_inversions_") + kname(c.klass), n_inv);
   return true;
 }
 
@@ -1058,6 +1315,7 @@ run_case(Ctx& ctx)
   c.gen = dynamic_cast<const ProjDataInfoGenericNoArcCorr*>(c.pdi.get());
   c.noarc = dynamic_cast<const ProjDataInfoCylindricalNoArcCorr*>(c.pdi.get());
   c.arc = dynamic_cast<const ProjDataInfoCylindricalArcCorr*>(c.pdi.get());
+  c.blk = dynamic_cast<const ProjDataInfoBlocksOnCylindricalNoArcCorr*>(c.pdi.get());
   if (!c.cyl)
     throw vf::Skip("unexpected pdi class");
   if (c.gen)
@@ -1153,6 +1411,7 @@ run_case(Ctx& ctx)
 
   RtStats rs;
   GeoStats gs;
+  CartStats cs;
   D = Defects();
   std::vector<DetectionPositionPair<>> dps;
   const long offset = stride > 1 ? rng.range(0, stride - 1) : 0;
@@ -1173,6 +1432,8 @@ run_case(Ctx& ctx)
         return;
       if (!geometry(ctx, c, b, gs, dps))
         return;
+      if (!cartesian_of_bin(ctx, c, b, cs))
+        return;
     }
   ctx.count("bins_roundtripped", rs.done);
   ctx.count("roundtrip_exact", rs.exact);
@@ -1189,6 +1450,20 @@ run_case(Ctx& ctx)
   ctx.count("phi_exact", gs.phi_exact);
   ctx.count("phi_within_half_view_step", gs.phi_halfstep);
   ctx.count("bins_without_contributors", gs.no_contrib);
+  ctx.count("cart_bins_checked", cs.bins);
+  ctx.count(std::string("cart_bins_") + kname(c.klass), cs.bins);
+  ctx.count("cart_bins_oblique", cs.oblique);
+  ctx.count("cart_points_vs_get_LOR", cs.vs_get_lor);
+  ctx.count("cart_points_in_detector_order", cs.in_detector_order);
+  ctx.count("cart_points_in_swapped_order", cs.swapped_order);
+  ctx.count("cart_points_in_swapped_order_with_nonnegative_tof_bin", cs.swapped_order_tof_nonneg);
+  ctx.count("cart_find_bin_exact", cs.find_exact);
+  ctx.count("cart_find_bin_neighbour", cs.find_neigh);
+  ctx.count("cart_find_bin_view_wrap", cs.find_wrap);
+  if (cs.bins > 0 && c.tilt != 0)
+    ctx.count("cart_cfg_tilt");
+  if (cs.bins > 0 && p.is_tof_data())
+    ctx.count("cart_cfg_tof");
   ctx.count(std::string("cfg_") + kname(c.klass));
   if (c.tilt != 0 || (c.klass == GENERIC && ss.tilt != 0))
     ctx.count("cfg_tilt");
@@ -1215,6 +1490,9 @@ run_case(Ctx& ctx)
       if (!arc_correction_checks(ctx, c))
         return;
     }
+  ctx.heartbeat("scanner-coordinates");
+  if (!scanner_coordinate_checks(ctx, c))
+    return;
   ctx.nontrivial = c.nviews >= 2 && ntang >= 3 && rs.done > 0 && gs.checked > 0;
 }
 
